@@ -22,6 +22,10 @@ CLAIMED = {
          "reproduced exactly (boundary cases included); if the moment spread fits in F_max the output is the moment part plus one common shift, "
          "that shift is the least one, and the rotor-geometry map returns exactly the range-limited moment. Peeling lemmas are rfl.",
          "DESIGN.md §2 C13", TECH_T),
+ "C18": ("proof", "Lean 4 theorems over the Bezier programs regenerated from cyecca/models/bezier.py: for degrees 1..7 De Casteljau eval equals the "
+         "Bernstein polynomial, start/end points, and HasDerivAt facts for every derivative order (all t, inside or outside [0,T]); the cubic and "
+         "septic boundary-value solvers meet every requested condition (T != 0); traj/multirotor outputs are the curve and its successive derivatives.",
+         "DESIGN.md §2 C18", TECH_T),
 }
 checks = []
 for pid, (cat, text, ref, tech) in CLAIMED.items():
